@@ -12,13 +12,11 @@ C01 capstones, second part (same namespace `TLX.Props.C01Capstone`; nothing of `
 2. `tls12_connection_exact_displaced`, `tls13_connection_exact_displaced`: `DeliveredDisplaced` = per direction
    `Delivers k isn` (segments displaced by up to k positions) ∧ `Props.C05.NoEarlyDelivery`.
 3. TLS 1.3 handshake messages fragmented across records (`Spec/TlsFragmented13`: `FEv.frag bytes fins`, `FragConform`).
-   `tls13_connection_exact_statement` (def, full RFC 8446 §5.1 strength), `Ex2.tls13_fragmented_counterexample : ¬ …`,
-   `tls13_fragmented_partial`: holds when every protected handshake record is in LOCKSTEP (`Lemmas/Capstone2.Lock`):
-   `seenFins bytes = fins`, where `walk` / `seenFins` say exactly what the loop of
-   `handle_decrypted_tls_13_handshake_record` looks at (`hs13Loop_walk`): it restarts at offset 0 of every record's
-   plaintext and hops (type, uint24 length) pairs, so it counts a Finished iff the Finished's first byte is reached by
-   hopping from THIS record's first byte — whole-message records are in lockstep (`seenFins_whole`); a record that
-   starts inside a message is walked from garbage.
+   `tls13_connection_exact_statement` (def, full RFC 8446 §5.1 strength) is TRUE for the model as repaired (per-direction
+   `handshake_13_buffer`): `tls13_connection_exact_fragmented`. `Lemmas/Capstone2.plan_of_conform` turns RFC
+   conformance (Finished ends counted per record) into the per-record facts the loop needs; `hsBuf_invariant`: the
+   buffer is exactly the unfinished tail of the direction's handshake stream. Before the repair
+   (`Session.Legacy.hs13Loop`, characterised by `walk` / `legacy_hs13Loop_walk`): `Ex2.legacy_tls13_fragmented_counterexample`.
 4. `tls12_connection_meta_exact`, `tls13_connection_meta_exact`: the export with `-a` (`metaStream12`, `metaStream13`).
 Non-vacuity: `Ex2.*_instance` discharge every hypothesis for concrete connections.
 -/
